@@ -302,6 +302,13 @@ func genC02Coll(r *Rng, e *Emitter) {
 }
 
 func genC02(r *Rng, e *Emitter, n int) {
+	for _, kind := range c02Kinds {
+		for _, lr := range c02PairLayouts {
+			for _, lp := range c02PairLayouts {
+				c02Mini(r, e, kind, lr, lp)
+			}
+		}
+	}
 	for h := 0; h < n; h++ {
 		if r.chance(1, 5) {
 			genC02Coll(r, e)
@@ -398,3 +405,32 @@ func genC02(r *Rng, e *Emitter, n int) {
 		e.emit("C02.hist."+kind, fmt.Sprintf("(%d (%s))", int(l), strings.Join(ops, " ")), "("+strings.Join(obs, " ")+")")
 	}
 }
+
+// c02Mini: one short history — a part of layout lp pushed onto a fresh receiver of layout lr (a
+// second one after it), then the observers — for every pair of layouts incl. no layout at all.
+func c02Mini(r *Rng, e *Emitter, kind string, lr, lp geom.Layout) {
+	g := newMulti(kind, lr)
+	var ops, obs []string
+	for k := 0; k < 2; k++ {
+		var spec string
+		res := guard(func() string {
+			var rs string
+			spec, rs = g.push(r, lp)
+			return rs
+		})
+		ops = append(ops, fmt.Sprintf("(push %d %s)", int(lp), spec))
+		obs = append(obs, res)
+		ops = append(ops, "num")
+		obs = append(obs, fmt.Sprint(g.num()))
+	}
+	ops = append(ops, "coords")
+	obs = append(obs, guard(func() string { return "(ok " + g.coords() + ")" }))
+	if g.num() > 0 {
+		ops = append(ops, "(part 0)")
+		obs = append(obs, guard(func() string { return "(ok " + g.part(0) + ")" }))
+	}
+	e.tally("push-layout-pairs")
+	e.emit("C02.hist."+kind, fmt.Sprintf("(%d (%s))", int(lr), strings.Join(ops, " ")), "("+strings.Join(obs, " ")+")")
+}
+
+var c02PairLayouts = []geom.Layout{geom.NoLayout, geom.XY, geom.XYZ, geom.XYM, geom.XYZM, 5}
